@@ -153,6 +153,10 @@ func c20Api(r *rng, id string) {
 		// a peer freezes: it keeps its listening socket but answers nothing (TCP fallback pings to it
 		// are accepted and never acknowledged)
 		stages = append(stages, "hung-peer")
+		if r.chance(1, 2) {
+			stages[len(stages)-1] = "stalled-peer"
+			cl.nodes[2].tr.stalled.Store(true) // ... and does not even drain what is written to it
+		}
 		cl.nodes[2].hang()
 	}
 	// stage 1: joined - concurrent callers
